@@ -319,7 +319,10 @@ func (s Sample) Quantile(q float64) float64 {
 				return s.Xs[i]
 			}
 		}
-		return s.Xs[len(s.Xs)-1]
+		// Rounding error left the target unreached. The answer
+		// is the largest value with non-zero weight.
+		_, max := s.Bounds()
+		return max
 	}
 }
 
